@@ -380,7 +380,7 @@ def cv_clauses(ch, s, a, result, ka, kb, kl, callee=False):
         yield "every-item-below-has-its-widgets-rows", every_item_ok(below, maxcol, "cv.below")
 
 
-@contract(LBX + "ListBox.calculate_visible", property=("C07", "C08"), replayable=False)
+@contract(LBX + "ListBox.calculate_visible", property="C07", replayable=False)  # C08 uses it as a callee contract only
 class lb_calculate_visible:
     """The widgets drawn around the walker's focus at this size: (row offset, focus widget, focus position, focus rows,
     cursor), (trim_top, [(widget, position, rows)] above, nearest first), (trim_bottom, [... below])."""
